@@ -21,6 +21,16 @@ use std::time::SystemTime;
 use scion_sdk_token_validator::validator::Token;
 use serde::{Deserialize, Serialize};
 
+/// Largest `exp` value (seconds since the Unix epoch) that is converted exactly:
+/// 9999-12-31T23:59:59Z. Larger values saturate here so that converting an attacker- or
+/// misconfiguration-supplied `exp` to a [`SystemTime`] can never overflow (and panic).
+pub(crate) const MAX_EXP_SECS: u64 = 253_402_300_799;
+
+/// Converts an `exp` claim to a [`SystemTime`], saturating at [`MAX_EXP_SECS`].
+pub(crate) fn exp_to_system_time(exp: u64) -> SystemTime {
+    SystemTime::UNIX_EPOCH + std::time::Duration::from_secs(exp.min(MAX_EXP_SECS))
+}
+
 /// A wrapper that can handle any version of SNAP token claims.
 ///
 /// It uses a custom deserializer to inspect the `ver` field:
